@@ -15,6 +15,14 @@ enum ami_flags_e {
 const char *asn1c_make_identifier(enum ami_flags_e, asn1p_expr_t *expr, ...);
 
 /*
+ * Return the text in a form which is safe to place inside a C comment:
+ * the comment terminator is broken up.
+ * The returned string is a pointer to a statically allocated buffer which is
+ * going to be clobbered by the subsequent invocation of this function.
+ */
+const char *asn1c_comment_safe(const char *text);
+
+/*
  * Return the type name of the specified expression.
  * The returned string is a pointer to a statically allocated buffer which is
  * going to be clobbered by the subsequent invocation of this function.
